@@ -25,6 +25,11 @@ Libtool archives: .la files are written to /verif/.build/c19/<pid>/ and read bac
 through giscanner.utils.extract_libtool_shlib; a small end-to-end family drives
 giscanner.shlibs.resolve_shlibs with `cat <listing>` as the ldd wrapper, mixing .la
 requests and plain names.
+
+Working-directory states: the implementation asks the file system about every
+requested name, so the scratch working directory is part of the alphabet: for each
+requested name it holds nothing, a regular file, a directory, or a symlink to a
+directory of that name, crossed with the name being listed or not (see FS_* below).
 """
 import itertools
 import os
@@ -654,6 +659,132 @@ def _work_e2e(chunk):
     return part.result()
 
 
+# ------------------------------------------------- working-directory states ---
+# The implementation consults the file system for every requested name.  For each
+# requested name the working directory holds nothing, a regular file, a directory or
+# a symlink to a directory of that name; crossed with the name being listed or not.
+# Statement: every requested library NAME resolves from the listing or the scan stops
+# naming it.  A request that is an existing regular file is a file to link as-is
+# (giscanner/ccompiler.py: "If we get a real filename, just use it as-is"): what it
+# contributes to the result is UNSPECIFIED; a directory is not a file to link, so such
+# a name is an ordinary library name.
+FS_NAMES = ['foo', 'foo-bar', 'pango', 'gd', 'src']
+FS_STATES = ['none', 'file', 'dir', 'dirlink']
+FS_STYLES = [('ldd', 'usr'), ('bare', 'opt')]
+
+
+def fs_make(root, fs):
+    shutil.rmtree(root, ignore_errors=True)
+    os.makedirs(root)
+    for name, st in sorted(fs.items()):
+        p = os.path.join(root, name)
+        if st == 'file':
+            with open(p, 'w') as f:
+                f.write('!<arch>\n')
+        elif st == 'dir':
+            os.mkdir(p)
+        elif st == 'dirlink':
+            os.mkdir(os.path.join(root, '.target-' + name))
+            os.symlink('.target-' + name, p)
+
+
+def fs_cases():
+    out = []
+    for k in (1, 2):
+        for req in itertools.permutations(FS_NAMES, k):
+            for states in itertools.product(FS_STATES, repeat=k):
+                out.append((list(req), dict(zip(req, states))))
+    return out
+
+
+def fs_listings(req):
+    """every subset of the requests listed, every order, two styles"""
+    out = []
+    for style, dk in FS_STYLES:
+        for r in range(len(req) + 1):
+            for sub in itertools.permutations(req, r):
+                out.append([render(style, dir_of(dk, n), 'lib%s.so.0' % n) for n in sub])
+    return out
+
+
+def judge_fs(req, fs, first, obs):
+    names = [r for r in req if fs.get(r, 'none') != 'file']       # library names proper
+    nfiles = len(req) - len(names)
+    if obs[0] == 'crash':
+        return 'implementation raised %s' % obs[1]
+    unresolved = [r for r in names if r not in first]
+    if unresolved:
+        if obs[0] != 'exit':
+            return 'expected SystemExit naming %r, got %r' % (unresolved, obs[1])
+        code = obs[1]
+        if not isinstance(code, str) or not code:
+            return 'SystemExit without a message (code %r); unresolved %r' % (code, unresolved)
+        toks = named_tokens(code)
+        miss = [u for u in unresolved if u not in toks]
+        if miss:
+            return 'error message %r does not name unresolved %r' % (code, miss)
+        extra = [r for r in names if r in first and r in toks]
+        if extra:
+            return 'error message %r names %r which is resolvable' % (code, extra)
+        return None
+    want = sorted(first[r] for r in names)
+    if obs[0] != 'ok':
+        return 'expected %r, got SystemExit(%r)' % (want, obs[1])
+    got = list(obs[1])
+    for w in want:
+        if w not in got:
+            return 'expected %r (plus at most %d entries for file requests), got %r' % (want, nfiles, obs[1])
+        got.remove(w)
+    if len(got) > nfiles:
+        return 'expected %r (plus at most %d entries for file requests), got %r' % (want, nfiles, obs[1])
+    return None
+
+
+def run_fs_case(req, fs, rendered):
+    """-> (first, obs); runs the implementation with a scratch working directory"""
+    lines = [Line(t, f, 'file') for t, f in rendered]
+    first = {}
+    for l in lines:
+        f1, _ = ref_line(l.files, req)
+        for n, b in f1.items():
+            first.setdefault(n, b)
+    root = os.path.join(scratch_dir(), 'cwd')
+    fs_make(root, fs)
+    old = os.getcwd()
+    os.chdir(root)
+    try:
+        obs = run_impl(tuple(req), listing_text(lines))
+    finally:
+        os.chdir(old)
+    return lines, first, obs
+
+
+def _work_fs(chunk):
+    part = Part()
+    try:
+        for req, fs in chunk:
+            for rendered in fs_listings(req):
+                lines, first, obs = run_fs_case(req, fs, rendered)
+                anyfile = any(st == 'file' for st in fs.values())
+                part.add(evaluations=1, states=1, transitions=1, traces_validated_against_impl=1,
+                         distinct_nontrivial=1, fs_must=1, fs_with_file_request=1 if anyfile else 0)
+                part.outcome(('fs', tuple(sorted(set(fs.values()))), obs[0],
+                              len(obs[1]) if obs[0] == 'ok' else None))
+                err = judge_fs(req, fs, first, obs)
+                if err:
+                    part.violation('fs|%r|%r|%r' % (req, sorted(fs.items()), listing_text(lines)), err,
+                                   {'kind': 'fs', 'requests': req, 'cwd': fs,
+                                    'lines': [[l.text, list(l.files), l.kind] for l in lines],
+                                    'observed': _jsonable(obs)})
+        if chunk:
+            req, fs = chunk[-1]
+            part.sample({'cwd_contains': fs, 'requests': req,
+                         'listing': listing_text([Line(t, f, 'file') for t, f in fs_listings(req)[-1]])})
+    finally:
+        shutil.rmtree(scratch_dir(), ignore_errors=True)
+    return part.result()
+
+
 # ------------------------------------------------------------------------ run ---
 def self_test():
     """The reference resolver against the examples spelled out in the statement."""
@@ -666,8 +797,8 @@ def self_test():
     if not ok:
         raise HarnessBroken('reference resolver fails the statement\'s own examples')
     for n in NAMES:
-        if os.path.isfile(n):
-            raise HarnessBroken('a file named %r exists in the working directory' % n)
+        if os.path.lexists(n):
+            raise HarnessBroken('something named %r exists in the working directory' % n)
 
 
 def run(ctx):
@@ -693,6 +824,10 @@ def run(ctx):
     e2e_chunks = [e2e[i:i + 12] for i in range(0, len(e2e), 12)]
     for r in pmap(_work_e2e, rotate(e2e_chunks, ctx.seed)):
         ctx.merge(r)
+    fsc = fs_cases()
+    fs_chunks = [fsc[i:i + 12] for i in range(0, len(fsc), 12)]
+    for r in pmap(_work_fs, rotate(fs_chunks, ctx.seed)):
+        ctx.merge(r)
     shutil.rmtree(scratch_dir(), ignore_errors=True)
 
     ctx.set(rule='every loader listing of min..max lines over each space\'s line alphabet (all orders, repetition '
@@ -701,17 +836,21 @@ def run(ctx):
                  'resolver; pairs in which one listed file satisfies two requests are outside the quantifier '
                  '(executed, counted unspecified). non-trivial = pair with a MUST verdict (resolved multiset or '
                  'SystemExit naming exactly the unresolved names). Plus every libtool .la layout (4! field orders x '
-                 'comments on/off) x dlname value, and resolve_shlibs end-to-end with `cat listing` as ldd wrapper.',
+                 'comments on/off) x dlname value, resolve_shlibs end-to-end with `cat listing` as ldd wrapper, and every '
+                 'request list of 1-2 distinct names x working directory holding nothing / a regular file / a '
+                 'directory / a symlink to a directory of each name x each subset and order of the names listed.',
             bounds={'spaces': [{'tag': s.tag, 'lines': len(s.lines), 'listing_len': [s.minlen, s.maxlen],
                                 'names': s.names, 'max_requests': s.maxreq, 'pairs': s.size()} for s in spaces],
                     'names': NAMES, 'tails': TAILS, 'styles': STYLES, 'dirkinds': DIRKINDS,
                     'la_values': len(vals), 'la_layouts': 48, 'la_unspecified_variants': len(LA_VARIANTS) + 2,
-                    'e2e_cases': len(e2e)})
+                    'e2e_cases': len(e2e), 'fs_names': FS_NAMES, 'fs_states': FS_STATES,
+                    'fs_request_x_cwd_states': len(fsc)})
     ctx.assumptions += [
         'which whitespace-separated tokens of a listing are listed files is known from the generator (ldd: soname and '
         'path, same base name; bare/otool/BSD: the path); other tokens (=>, addresses, version text) are not files',
-        'no requested name is an existing file in the working directory (such requests are passed through to the '
-        'linker as-is by design and are not library names)',
+        'main spaces run with none of the names present in the working directory; the working-directory family '
+        'creates them: a request that is an existing regular file is a file to link as-is (its contribution to the '
+        'result is UNSPECIFIED), a directory or symlink to one is an ordinary library name',
         'order of the returned list is not fixed by the statement: compared as a multiset',
         'a .la file without a usable dlname (empty, absent, path, other quoting) is UNSPECIFIED: executed, and a '
         'non-None result must still be the dlname base name',
@@ -719,7 +858,8 @@ def run(ctx):
     ]
     cov = ctx.cov
     if (len(ctx._outcomes) < 8 or not cov.get('expected_resolved') or not cov.get('expected_error')
-            or not cov.get('la_must') or not cov.get('e2e_must')):
+            or not cov.get('la_must') or not cov.get('e2e_must') or not cov.get('fs_must')
+            or not cov.get('fs_with_file_request')):
         raise HarnessBroken('vacuous exploration: outcomes=%d resolved=%s error=%s' % (
             len(ctx._outcomes), cov.get('expected_resolved'), cov.get('expected_error')))
 
@@ -765,6 +905,15 @@ def replay(ctx, case):
             if verdict[0] == 'unspecified' or (static and verdict[0] == 'ok'):
                 return obs[0] != 'crash'
             err = judge(verdict, obs)
+        elif kind == 'fs':
+            req, fs = list(case['requests']), dict(case['cwd'])
+            lines, first, obs = run_fs_case(req, fs, [(t, tuple(f)) for t, f, _k in case['lines']])
+            print('working directory contains: %r' % (fs,))
+            print('listing:\n%s' % listing_text(lines))
+            print('requests: %r' % (req,))
+            print('reference resolution of the names: %r' % (first,))
+            print('observed: %r' % (_jsonable(obs),))
+            err = judge_fs(req, fs, first, obs)
         else:
             raise HarnessBroken('unknown replay kind %r' % kind)
     finally:
